@@ -161,6 +161,8 @@ func genSymView(r *Rng, tag string, names []string, n int) []*MNode {
 }
 
 func genC14(g *Gen) {
+	c14GenRootPath(g)
+	c14GenCopy(g)
 	n := g.Vol(1500, 25000)
 	names := []string{"a", "b", "c", "d", "f", "loop", "l"}
 	outsideView := func(r *Rng) []*MNode {
